@@ -129,3 +129,97 @@ func (in *Interp) mapIncluded(t *types.Map, a, b *Map, depth int) *Term {
 	}
 	return r
 }
+
+// deepEqual implements reflect.DeepEqual on engine values (strict: nil and empty containers differ).
+func (in *Interp) deepEqual(t types.Type, a, b Value, depth int) *Term {
+	if depth > 40 {
+		in.abort("DeepEqual: depth exceeded")
+	}
+	switch u := underlying(t).(type) {
+	case *types.Basic:
+		return in.eqVal(a, b)
+	case *types.Pointer:
+		pa, pb := a.(*Value), b.(*Value)
+		if pa == nil || pb == nil {
+			return Bool(pa == nil && pb == nil)
+		}
+		if pa == pb {
+			return tTrue
+		}
+		return in.deepEqual(u.Elem(), *pa, *pb, depth+1)
+	case *types.Struct:
+		sa, sb := a.(Struct), b.(Struct)
+		r := tTrue
+		for i := 0; i < u.NumFields(); i++ {
+			r = And(r, in.deepEqual(u.Field(i).Type(), sa[i], sb[i], depth+1))
+			if r.IsFalse() {
+				return r
+			}
+		}
+		return r
+	case *types.Array:
+		sa, sb := a.(Array), b.(Array)
+		r := tTrue
+		for i := range sa {
+			r = And(r, in.deepEqual(u.Elem(), sa[i], sb[i], depth+1))
+		}
+		return r
+	case *types.Slice:
+		sa, sb := a.(Slice), b.(Slice)
+		if (sa == nil) != (sb == nil) || len(sa) != len(sb) {
+			return tFalse
+		}
+		r := tTrue
+		for i := range sa {
+			r = And(r, in.deepEqual(u.Elem(), sa[i], sb[i], depth+1))
+			if r.IsFalse() {
+				return r
+			}
+		}
+		return r
+	case *types.Map:
+		ma, mb := a.(*Map), b.(*Map)
+		if (ma == nil) != (mb == nil) {
+			return tFalse
+		}
+		if ma == nil || ma == mb {
+			return tTrue
+		}
+		if ma.Len() != mb.Len() {
+			return tFalse
+		}
+		r := tTrue
+		for _, e := range ma.order {
+			if e.deleted {
+				continue
+			}
+			f := in.mapFind(mb, e.key)
+			if f == nil {
+				return tFalse
+			}
+			r = And(r, in.deepEqual(u.Elem(), e.val, f.val, depth+1))
+			if r.IsFalse() {
+				return r
+			}
+		}
+		return r
+	case *types.Interface:
+		ia, ib := a.(Iface), b.(Iface)
+		if ia.t == nil || ib.t == nil {
+			return Bool(ia.t == nil && ib.t == nil)
+		}
+		if !types.Identical(ia.t, ib.t) {
+			return tFalse
+		}
+		if _, op := ia.v.(Opaque); op {
+			return tTrue
+		}
+		return in.deepEqual(ia.t, ia.v, ib.v, depth+1)
+	case *types.Signature:
+		return Bool(isNilFunc(a) && isNilFunc(b))
+	case *types.Chan:
+		return Bool(a.(*Chan) == b.(*Chan))
+	}
+	in.abort("DeepEqual: unsupported type %s", t)
+	return nil
+}
